@@ -1091,20 +1091,17 @@ func (e *Exec) typeAssert(st *State, x *ssa.TypeAssert) {
 	e.set(st, x, rv)
 }
 
-// implAxioms asserts, for every concrete type tag known so far, whether it implements iface.
+// implAxioms asserts, for every concrete type known (repository types and all
+// dynamic types that have a tag in this script), whether it implements iface.
 func (e *Exec) implAxioms(at types.Type, it *types.Interface, pred string) {
+	if _, done := e.sc.implPreds[pred]; !done {
+		e.sc.implPreds[pred] = it
+	}
+	for i, t := range e.sc.tagTypes {
+		e.sc.implAxiom(pred, it, t, i+1)
+	}
 	for _, ct := range e.eng.concreteTypes {
-		tag := e.sc.typeTag(ct)
-		key := fmt.Sprintf("%s/%d", pred, tag)
-		if e.sc.funs[key] {
-			continue
-		}
-		e.sc.funs[key] = true
-		if types.Implements(ct, it) {
-			e.sc.emit(fmt.Sprintf("(assert (%s %d))", pred, tag))
-		} else {
-			e.sc.emit(fmt.Sprintf("(assert (not (%s %d)))", pred, tag))
-		}
+		e.sc.typeTag(ct) // the tag creation emits the axiom
 	}
 }
 
